@@ -173,6 +173,11 @@ shape!(o1_4_shape_n2_duplicate_then_older, 0, 2, [1, 1, 0], 0b111);
 //@fn PacketReceiver::{handle_datagram, receive, advance_window, set_channel_base_id, try_unset_channel_base_id}, AssemblyWindow::{try_add, clear}
 //@bound W=4, base 2^20-2; history of 3 packets; schedule shape: arrivals [2,0,1], receive() after each
 shape!(o1_4_shape_n3_last_first, 0xFFFFE, 3, [2, 0, 1], 0b111);
+//@h props=C01,C02 tier=quick timeout=900 role=receiver-model args=--no-memory-safety-checks
+//@assume Kani pointer checks off in this functional obligation (the same code runs with them on in the C03 obligations)
+//@fn PacketReceiver::{handle_datagram, receive, advance_window, set_channel_base_id, try_unset_channel_base_id}, AssemblyWindow::{try_add, clear}
+//@bound W=4, base 2^20-2; history of 3 packets; schedule shape: arrivals [2,1] (the first packet never arrives: the window base stays before the wrap while a channel moves past it; then a late older packet), receive() after each
+shape!(o1_4_shape_n3_first_lost_last_then_late, 0xFFFFE, 3, [2, 1], 0b11);
 //@h props=C01,C02 tier=thorough timeout=1800 role=receiver-model args=--no-memory-safety-checks
 //@assume Kani pointer checks off in this functional obligation (the same code runs with them on in the C03 obligations)
 //@fn PacketReceiver::{handle_datagram, receive, advance_window, set_channel_base_id, try_unset_channel_base_id}, AssemblyWindow::{try_add, clear}
@@ -358,7 +363,7 @@ fn o2_2_resync_stops_at_first_undelivered() {
     std::mem::forget(r);
 }
 
-//@h props=C06,C04 tier=quick timeout=1800 role=receiver-partial-release
+//@h props=C06,C04 tier=quick timeout=1800 role=receiver-partial-release cbmc=--max-field-sensitivity-array-size+512
 //@fn PacketReceiver::{handle_datagram, resynchronize, receive, advance_window}, AssemblyWindow::{try_add, clear}
 //@bound W=4, base 2^20-2, receive limit 4 fragments; fragment 0 (1448 bytes) of a two-fragment Unreliable packet arrives, its second fragment never does; the window then passes it (a) by a sender resynchronisation or (b) by delivery of the next packet of the channel
 #[kani::proof]
